@@ -3,6 +3,7 @@ package main
 import (
 	"fmt"
 	"go/token"
+	"go/types"
 	"sort"
 
 	"golang.org/x/tools/go/ssa"
@@ -131,6 +132,9 @@ func (c *Ctx) loopWrites(fr *Frame, li *loopInfo) (cells map[interface{}]bool, f
 				whole[chVal] = true
 			case ssa.CallInstruction:
 				cc := x.Common()
+				if c.preciseCallWrites(fr, cc, fields, whole) {
+					continue
+				}
 				ws, wall := c.V.callWrites(c, fr, cc)
 				if wall {
 					all = true
@@ -284,7 +288,7 @@ func (c *Ctx) enterLoopHead(st *State, fr *Frame, li *loopInfo, pred *ssa.BasicB
 			if precise {
 				h := c.heapCur(st, key, arrSort(info.Sort))
 				for _, b := range bases {
-					ref := c.term(st, fr, b)
+					ref := c.stableBaseTerm(st, fr, b)
 					fv := c.fresh("lh_"+key, info.Sort)
 					h = sto(h, ref, fv)
 				}
@@ -304,6 +308,12 @@ func (c *Ctx) enterLoopHead(st *State, fr *Frame, li *loopInfo, pred *ssa.BasicB
 				continue
 			}
 			info, ok := c.V.heapKeys[key]
+			if !ok && len(key) > 2 && key[:2] == "G_" {
+				if g, isG := c.V.specs.Ghosts[key[2:]]; isG {
+					c.heapHavoc(st, key, c.V.sortOfTypeName(g.Type))
+				}
+				continue
+			}
 			if !ok {
 				switch key {
 				case chLen, chVal:
@@ -366,4 +376,144 @@ func (c *Ctx) havocAll(st *State) {
 	st.heap = map[string]Term{}
 	nw := c.aliveCur(st)
 	st.assume(mk(SBool, "(forall ((r Int)) (! (=> (select %s r) (select %s r)) :pattern ((select %s r))))", old.S, nw.S, nw.S))
+}
+
+// preciseCallWrites handles calls whose contract modifies only fields of objects named by arguments
+// (x.f with x a parameter, object(x) with x an interface built from a pointer at the call site):
+// the written locations are recorded as (heap map, base value) pairs so that a loop head can havoc
+// exactly those locations when the base is loop-invariant. Returns false when the call needs the general treatment.
+func (c *Ctx) preciseCallWrites(fr *Frame, cc *ssa.CallCommon, fields map[string][]ssa.Value, whole map[string]bool) bool {
+	if _, isB := cc.Value.(*ssa.Builtin); isB {
+		return false
+	}
+	var fc *FuncContract
+	var names []string
+	var args []ssa.Value
+	if cc.IsInvoke() {
+		return false
+	}
+	switch v := cc.Value.(type) {
+	case *ssa.Function:
+		fc = c.V.contractFor(v)
+		for _, p := range v.Params {
+			names = append(names, p.Name())
+		}
+		if len(names) == 0 {
+			names = sigParamNames(v.Signature, true)
+		}
+		args = cc.Args
+	case *ssa.MakeClosure:
+		return false
+	default:
+		key := "dyn:" + c.dynKey(fr, cc.Value)
+		fc = c.V.specs.Funcs[key]
+		if fc == nil {
+			fc = c.V.specs.Funcs["dyn:"+typeKey(cc.Value.Type())]
+		}
+		sig, ok := cc.Value.Type().Underlying().(*types.Signature)
+		if !ok {
+			return false
+		}
+		names = sigParamNames(sig, false)
+		args = cc.Args
+	}
+	if fc == nil || !fc.HasMod || fc.Inline {
+		return false
+	}
+	argByName := func(n string) ssa.Value {
+		for i, nm := range names {
+			if nm == n && i < len(args) {
+				return args[i]
+			}
+		}
+		if len(n) > 3 && n[:3] == "arg" {
+			var k int
+			if _, err := fmt.Sscanf(n[3:], "%d", &k); err == nil {
+				off := len(args) - len(names)
+				_ = off
+				if k < len(args) {
+					return args[k]
+				}
+			}
+		}
+		return nil
+	}
+	type pend struct {
+		key  string
+		base ssa.Value
+	}
+	var out []pend
+	var wholeKeys []string
+	for _, m := range fc.Modifies {
+		switch e := m.E.(type) {
+		case EField:
+			id, ok := e.X.(EIdent)
+			if !ok {
+				return false
+			}
+			a := argByName(id.Name)
+			if a == nil {
+				return false
+			}
+			fis, ok := c.resolveFieldChain(a.Type(), e.Name)
+			if !ok || len(fis) != 1 {
+				return false
+			}
+			out = append(out, pend{fis[0].Key, a})
+		case ECall:
+			switch e.Fn {
+			case "alloc":
+				wholeKeys = append(wholeKeys, aliveKey)
+			case "object":
+				id, ok := e.Args[0].(EIdent)
+				if !ok {
+					return false
+				}
+				a := argByName(id.Name)
+				mi, ok := a.(*ssa.MakeInterface)
+				if a == nil || !ok || !isStructPtr(mi.X.Type()) {
+					return false
+				}
+				s, owner := structOf(mi.X.Type())
+				for i := 0; i < s.NumFields(); i++ {
+					fi := c.fieldByIndex(owner, i)
+					if isRepoStruct(fi.GoT) {
+						continue
+					}
+					out = append(out, pend{fi.Key, mi.X})
+				}
+			default:
+				return false
+			}
+		case EIdent:
+			if _, isGhost := c.V.specs.Ghosts[e.Name]; isGhost {
+				wholeKeys = append(wholeKeys, "G_"+e.Name)
+				continue
+			}
+			return false
+		default:
+			return false
+		}
+	}
+	for _, p := range out {
+		fields[p.key] = append(fields[p.key], p.base)
+	}
+	for _, k := range wholeKeys {
+		whole[k] = true
+	}
+	return true
+}
+
+// stableBaseTerm evaluates a loop-invariant base value at the loop head (the load instruction itself may
+// live inside the loop body and not have executed yet).
+func (c *Ctx) stableBaseTerm(st *State, fr *Frame, v ssa.Value) Term {
+	if u, ok := v.(*ssa.UnOp); ok && u.Op == token.MUL {
+		switch a := u.X.(type) {
+		case *ssa.Alloc:
+			return c.valAsTerm(c.loadCell(st, &Addr{Kind: aCell, Key: a, Elem: deref(a.Type())}))
+		case *ssa.FreeVar:
+			return c.valAsTerm(c.loadCell(st, &Addr{Kind: aCell, Key: a, Elem: deref(a.Type())}))
+		}
+	}
+	return c.term(st, fr, v)
 }
